@@ -210,6 +210,10 @@ type env struct {
 	wraps  []wrapLog
 	faults map[string]string // fault plan of the request in flight: site -> panic value class
 	guards []guardRec
+	// nest, when set, is a request the handler itself issues (a sub-request through the same group / router) BEFORE it reads
+	// its own parameters: a legal use, and the outer request must be unaffected by it (contexts are per request, also pooled ones)
+	nest    func()
+	nesting bool
 }
 
 func splitList(s string) []string {
@@ -291,6 +295,8 @@ func panicValue(class string) any {
 		return "verif-string"
 	case "abort":
 		return http.ErrAbortHandler
+	case "wrapabort":
+		return fmt.Errorf("wrapped: %w", http.ErrAbortHandler)
 	case "int":
 		return 4242
 	case "runtime":
@@ -364,6 +370,16 @@ func (e *env) call(w http.ResponseWriter, r *http.Request, rt types.Route, h *H)
 	o.kind, o.h = h.kind, h.id
 	if o.kind == "gnf" && o.rname != "" { // a router made by Group.New answers 404 with the group's not-found value
 		o.kind = "404"
+	}
+	if e.nest != nil && !e.nesting && o == e.cur && len(e.faults) == 0 && len(o.faults) == 0 {
+		e.nesting = true
+		e.cur = newObs() // the inner request's observation is thrown away
+		func() {
+			defer func() { recover() }()
+			e.nest()
+		}()
+		e.cur = o
+		e.nesting = false
 	}
 	rt.Params().Range(func(k, v string) { o.params[k] = v })
 	if n := rt.Node(); n != nil {
